@@ -367,6 +367,11 @@ def case_rs_hs(acc, role, cfg, raw, segs, coalesced, sid=None):
             if role == "server":
                 if kind != "accept" or h.ser != (raw[1] & 0x0F):
                     acc.bad("C13|bad-server-reply|%s" % tag, d, rarg)
+                elif h.exp != 15:
+                    # the reply announces the SERVER's receive limit (default 2^24 = exponent 15,
+                    # which is what it enforces), whatever the client announced for itself
+                    acc.bad("C13|server-announces-wrong-limit|%s" % tag,
+                            "announced exponent %d, the endpoint enforces 2^24; %s" % (h.exp, d), rarg)
             elif out:
                 acc.bad("C13|client-wrote-after-handshake|%s" % tag, d, rarg)
             if closing and not esc:
